@@ -121,20 +121,20 @@ package cdcn
 // accepted literals are never silently altered: the value is exactly what the token text denotes
 // (token types: boolean 1, complex 2, float 6, hexadecimal 7, integer 8, nil 9, rune 10, string 12)
 //@ func (*parser_).parseIntrinsic
-//@   props C12 C11 C19
+//@   props C12 C11 C10 C19
 //@   safe
 //@   requires pready(this)
 //@   modifies view(this.next_), view(this.tokens_), got(this.tokens_)
 //@   ensures[C12] result.1 != nil && pready(this)
 //@   ensures[C11] result.2 ==> ttype(result.1) == 1 || ttype(result.1) == 2 || ttype(result.1) == 6 || ttype(result.1) == 7 || ttype(result.1) == 8 || ttype(result.1) == 9 || ttype(result.1) == 10 || ttype(result.1) == 12
-//@   ensures[C11] result.2 && ttype(result.1) == 1 ==> pbool_ok(tvalue(result.1)) && result.0 == box(pbool_val(tvalue(result.1)))
-//@   ensures[C11] result.2 && ttype(result.1) == 2 ==> pcplx_ok(tvalue(result.1)) && result.0 == box(pcplx_val(tvalue(result.1)))
-//@   ensures[C11] result.2 && ttype(result.1) == 6 ==> pfloat_ok(tvalue(result.1)) && result.0 == box(pfloat_val(tvalue(result.1)))
-//@   ensures[C11] result.2 && ttype(result.1) == 7 ==> phex_ok(ssub(tvalue(result.1), 2, len(tvalue(result.1)))) && result.0 == box(phex_val(ssub(tvalue(result.1), 2, len(tvalue(result.1)))))
-//@   ensures[C11] result.2 && ttype(result.1) == 8 ==> pint_ok(tvalue(result.1)) && result.0 == box(pint_val(tvalue(result.1)))
-//@   ensures[C11] result.2 && ttype(result.1) == 9 ==> result.0 == nil
-//@   ensures[C11] result.2 && ttype(result.1) == 10 ==> unq_ok(tokmatch(10, tvalue(result.1))) && result.0 == box(drune(unq_val(tokmatch(10, tvalue(result.1)))))
-//@   ensures[C11] result.2 && ttype(result.1) == 12 ==> unq_ok(tokmatch(12, tvalue(result.1))) && result.0 == box(unq_val(tokmatch(12, tvalue(result.1))))
+//@   ensures[C11,C10] result.2 && ttype(result.1) == 1 ==> pbool_ok(tvalue(result.1)) && result.0 == box(pbool_val(tvalue(result.1)))
+//@   ensures[C11,C10] result.2 && ttype(result.1) == 2 ==> pcplx_ok(tvalue(result.1)) && result.0 == box(pcplx_val(tvalue(result.1)))
+//@   ensures[C11,C10] result.2 && ttype(result.1) == 6 ==> pfloat_ok(tvalue(result.1)) && result.0 == box(pfloat_val(tvalue(result.1)))
+//@   ensures[C11,C10] result.2 && ttype(result.1) == 7 ==> phex_ok(ssub(tvalue(result.1), 2, len(tvalue(result.1)))) && result.0 == box(phex_val(ssub(tvalue(result.1), 2, len(tvalue(result.1)))))
+//@   ensures[C11,C10] result.2 && ttype(result.1) == 8 ==> pint_ok(tvalue(result.1)) && result.0 == box(pint_val(tvalue(result.1)))
+//@   ensures[C11,C10] result.2 && ttype(result.1) == 9 ==> result.0 == nil
+//@   ensures[C11,C10] result.2 && ttype(result.1) == 10 ==> unq_ok(tokmatch(10, tvalue(result.1))) && result.0 == box(drune(unq_val(tokmatch(10, tvalue(result.1)))))
+//@   ensures[C11,C10] result.2 && ttype(result.1) == 12 ==> unq_ok(tokmatch(12, tvalue(result.1))) && result.0 == box(unq_val(tokmatch(12, tvalue(result.1))))
 //@ func (*parser_).parseKey
 //@   props C12 C19
 //@   safe
